@@ -724,6 +724,7 @@ func c22Check(c c22Case, r *evid.Rec) []evid.Disc {
 		}
 	}
 	r.Label(fmt.Sprintf("badger-config-%d", size))
+	r.Label("cases")
 	env, err := c22NewEnv(size)
 	if err != nil {
 		r.Inconclusive("storage environment could not be created: " + err.Error())
@@ -750,7 +751,13 @@ func c22Check(c c22Case, r *evid.Rec) []evid.Disc {
 	var ds []evid.Disc
 	for i, ev := range c.Evs {
 		if time.Since(start) > c22Budget {
-			r.Inconclusive("per-case time budget exceeded")
+			// an overloaded machine: the case is abandoned and counted; the run is inconclusive only if that happens to
+			// more than one case in a hundred (never a verdict either way)
+			r.Label("case-abandoned-time-budget")
+			r.NotAsserted()
+			if n := r.LabelCount("case-abandoned-time-budget"); n > 3 && n*100 > r.LabelCount("cases") {
+				r.Inconclusive("per-case time budget exceeded by more than 1% of the cases")
+			}
 			return nil
 		}
 		applyLogs := []string{}
